@@ -29,6 +29,7 @@ namespace clops
 namespace sim
 {
     const char* const harness_name = "closure";
+    const bool caller_threads_enabled = true;
 #define X(n) #n,
     const char* const op_names[] = {CLOSURE_OPS(X)};
 #undef X
@@ -927,7 +928,7 @@ namespace
             if (const char* bad = static_table())
                 fail("model", std::string("C07/static/") + bad, "closure type trait does not map this value category as the model assumes (static half; evaluated, not simulated)");
             check_all();
-            for (const Step& st : plan.steps) step(st);
+            for (const Step& st : plan.steps) as_caller(run, st, [&] { step(st); });
             tail = "teardown/-";
             teardown();
             lifetimes();
